@@ -1025,3 +1025,38 @@ func (g *Gen) PatternChains(allowLeadingOr bool) [][]Call {
 	}
 	return out
 }
+
+// FullAtoms: one atom of every operator, with bounds that occur in the data (ages 0..5), so that
+// every NegationBuild (<> / >= / <= / > / < / NOT LIKE / NOT IN / IS NOT NULL) is exercised on
+// boundary rows.
+func FullAtoms(r *lib.Rng) []Atom {
+	return []Atom{
+		{ID: 1, Col: "age", Op: "eq", I: int64(r.Range(0, 1))},
+		{ID: 2, Col: "age", Op: "neq", I: 5},
+		{ID: 3, Col: "age", Op: "lt", I: 2},
+		{ID: 4, Col: "age", Op: "gt", I: 3},
+		{ID: 5, Col: "age", Op: "lte", I: int64(r.Range(2, 3))},
+		{ID: 6, Col: "age", Op: "gte", I: 4},
+		{ID: 7, Col: "name", Op: "like", IsStr: true, S: "a%"},
+		{ID: 8, Col: "age", Op: "in", IL: []int64{1, 4}},
+		{ID: 9, Col: "nick", Op: "isnull"},
+	}
+}
+
+// NegationChains: Not over every atom as a clause expression, as a map/struct entry where the
+// form allows it, and inside a two-member group with another atom.
+func (g *Gen) NegationChains() [][]Call {
+	var out [][]Call
+	for _, a := range g.Atoms {
+		e := Unit{Form: "expr", CE: &CExpr{Kind: "atom", Atom: a.ID}}
+		out = append(out, []Call{{Kind: "not", Unit: e}})
+		if a.MapOK() {
+			out = append(out, []Call{{Kind: "not", Unit: Unit{Form: "map", Members: []int{a.ID}}}})
+		}
+		b := lib.Pick(g.R, g.Atoms)
+		o := Unit{Form: "expr", CE: &CExpr{Kind: "atom", Atom: b.ID}}
+		out = append(out, []Call{{Kind: "not", Unit: Unit{Form: "group", Calls: []Call{{Kind: "where", Unit: e}, {Kind: "where", Unit: o}}}}})
+		out = append(out, []Call{{Kind: "where", Unit: o}, {Kind: "not", Unit: Unit{Form: "expr", CE: &CExpr{Kind: "and", Kids: []*CExpr{{Kind: "atom", Atom: a.ID}, {Kind: "atom", Atom: b.ID}}}}}})
+	}
+	return out
+}
